@@ -140,11 +140,18 @@ impl ValidationHooks for RefusingHooks {
     }
 }
 
-/// Artifact kinds whose checksum is documented to be taken over EVERY byte of the declared region (LRU checkpoint: MD5
-/// over the whole file with the hash field zeroed; encoding table: MD5 of the whole page). For these "any change to
-/// the protected bytes makes the load fail" is judged literally for in-place changes, also when the changed byte is
-/// not part of the logical content (reserved fields, padding).
-const EVERY_BYTE_COVERED: &[&str] = &["lru-file", "lru-file-via-load_from_disk", "encoding", "encoding-via-parse_blte"];
+/// "Any change to the protected bytes makes the load fail" is judged literally for in-place changes (bit flip, byte
+/// substitution) inside the declared region, also when the changed byte is not part of the logical content (reserved
+/// fields, flag bits nobody interprets, padding): every kind declares as its region exactly the bytes its documented
+/// checksum is taken over (LRU checkpoint: MD5 over the whole file with the hash field zeroed; encoding table / index
+/// entry: MD5 of the whole page; local header: Jenkins hash of bytes 0..22 and XOR accumulation of bytes 0..26 —
+/// module doc of local_header.rs; residency entry: hashlittle over bytes 4..37; archive-index footer: MD5 of the field
+/// bytes; BLTE chunk: MD5 of the stored chunk; V1 reply: SHA-256 / MD5 over the message bytes). A byte of such a region
+/// that can be changed in place without the load failing is not protected, whether or not the loader exposes it
+/// (a verifier that hashes what it re-serialises instead of what it read has exactly this effect).
+/// The one kind still judged by exposed content is the update entry: its parser maps unknown status values to Normal,
+/// which has been recorded as "accepted-content-equal(benign)" since the first version of the check.
+const IN_PLACE_JUDGED_BY_CONTENT_ONLY: &[&str] = &["update-entry"];
 
 #[allow(clippy::too_many_arguments)]
 fn judge(ctx: &Ctx, t: &mut Tally, a: &Artifact, class: &str, part: &str, mutated: &[u8], describe: impl Fn() -> Value) {
@@ -171,9 +178,9 @@ fn judge(ctx: &Ctx, t: &mut Tally, a: &Artifact, class: &str, part: &str, mutate
                        "mutated_hex": if mutated.len() <= 4096 { hex::encode(mutated) } else { hex_short(mutated, 64) }}),
             );
         }
-        Outcome::AcceptedEqual if EVERY_BYTE_COVERED.contains(&a.kind) && (class == "bitflip" || class.starts_with("subst-")) => {
-            // the checksum of these artifacts is taken over every byte of the declared region: a byte that can be
-            // changed in place without the load failing is no longer protected, whether or not it is exposed
+        Outcome::AcceptedEqual if !IN_PLACE_JUDGED_BY_CONTENT_ONLY.contains(&a.kind) && (class == "bitflip" || class.starts_with("subst-")) => {
+            // the checksum is taken over every byte of the declared region: a byte that can be changed in place
+            // without the load failing is no longer protected, whether or not it is exposed
             t.add(a.kind, class, "ACCEPTED-ALTHOUGH-PROTECTED-BYTE-CHANGED");
             ctx.violation(
                 &format!("C07|{}|{class}|accepted-although-protected-byte-changed|{part}", a.kind),
